@@ -1090,3 +1090,31 @@ package keeper
 //@   invariant forall i int :: (0 <= i && i <= rangeindex) ==> (typeof(contracts[i]) == type(*bech32CustomPrecompiledContract) ==> (unbox(contracts[i], type(*bech32CustomPrecompiledContract)) != nil && (unbox(contracts[i], type(*bech32CustomPrecompiledContract)).metadata.CustomPrecompiledType == pbMetaType(kvVal[kvId(layer(ctx), payload(k.storeKey))][kvSeqKey(kvHas[kvId(layer(ctx), payload(k.storeKey))], b1(2), i)]) && bytes(unbox(contracts[i], type(*bech32CustomPrecompiledContract)).metadata.Address) == pbMetaAddr(kvVal[kvId(layer(ctx), payload(k.storeKey))][kvSeqKey(kvHas[kvId(layer(ctx), payload(k.storeKey))], b1(2), i)]) && unbox(contracts[i], type(*bech32CustomPrecompiledContract)).metadata.Name == pbMetaName(kvVal[kvId(layer(ctx), payload(k.storeKey))][kvSeqKey(kvHas[kvId(layer(ctx), payload(k.storeKey))], b1(2), i)]) && unbox(contracts[i], type(*bech32CustomPrecompiledContract)).metadata.TypedMeta == pbMetaTyped(kvVal[kvId(layer(ctx), payload(k.storeKey))][kvSeqKey(kvHas[kvId(layer(ctx), payload(k.storeKey))], b1(2), i)]) && unbox(contracts[i], type(*bech32CustomPrecompiledContract)).metadata.Disabled == pbMetaDisabled(kvVal[kvId(layer(ctx), payload(k.storeKey))][kvSeqKey(kvHas[kvId(layer(ctx), payload(k.storeKey))], b1(2), i)]))))
 //@   invariant forall i int :: (0 <= i && i <= rangeindex) ==> (typeof(contracts[i]) == type(*bech32CustomPrecompiledContract) ==> (len(unbox(contracts[i], type(*bech32CustomPrecompiledContract)).executors) > 0 && (forall j int :: (0 <= j && j < len(unbox(contracts[i], type(*bech32CustomPrecompiledContract)).executors)) ==> unbox(contracts[i], type(*bech32CustomPrecompiledContract)).executors[j] != nil)))
 
+// The accessors of the three contract objects return the stored record / executor list unchanged (value receivers: the
+// pointer-receiver wrappers share these contracts). With contracts here, a call through CustomPrecompiledContractI is
+// split over these six implementations without copying the objects.
+//@ func (m erc20CustomPrecompiledContract) GetMetadata() (meta cpctypes.CustomPrecompiledContractMeta)
+//@   modifies nothing
+//@   ensures[C17.get_metadata_erc20] meta.CustomPrecompiledType == m.metadata.CustomPrecompiledType && meta.Address == m.metadata.Address && meta.Name == m.metadata.Name && meta.TypedMeta == m.metadata.TypedMeta && meta.Disabled == m.metadata.Disabled
+//@   panics never
+//@ func (m erc20CustomPrecompiledContract) GetMethodExecutors() (execs []ExtendedCustomPrecompiledContractMethodExecutorI)
+//@   modifies nothing
+//@   ensures[C17.get_executors_erc20] execs == m.executors
+//@   panics never
+//@ func (m stakingCustomPrecompiledContract) GetMetadata() (meta cpctypes.CustomPrecompiledContractMeta)
+//@   modifies nothing
+//@   ensures[C17.get_metadata_staking] meta.CustomPrecompiledType == m.metadata.CustomPrecompiledType && meta.Address == m.metadata.Address && meta.Name == m.metadata.Name && meta.TypedMeta == m.metadata.TypedMeta && meta.Disabled == m.metadata.Disabled
+//@   panics never
+//@ func (m stakingCustomPrecompiledContract) GetMethodExecutors() (execs []ExtendedCustomPrecompiledContractMethodExecutorI)
+//@   modifies nothing
+//@   ensures[C17.get_executors_staking] execs == m.executors
+//@   panics never
+//@ func (m bech32CustomPrecompiledContract) GetMetadata() (meta cpctypes.CustomPrecompiledContractMeta)
+//@   modifies nothing
+//@   ensures[C17.get_metadata_bech32] meta.CustomPrecompiledType == m.metadata.CustomPrecompiledType && meta.Address == m.metadata.Address && meta.Name == m.metadata.Name && meta.TypedMeta == m.metadata.TypedMeta && meta.Disabled == m.metadata.Disabled
+//@   panics never
+//@ func (m bech32CustomPrecompiledContract) GetMethodExecutors() (execs []ExtendedCustomPrecompiledContractMethodExecutorI)
+//@   modifies nothing
+//@   ensures[C17.get_executors_bech32] execs == m.executors
+//@   panics never
+
